@@ -9,6 +9,9 @@
 (*   class "cash"     signed USD.FX total = net USD cash flow of the input *)
 (*   class "order"    rows are printed in the specified order              *)
 (*   class "accept"   every printed row is accepted by acb                 *)
+(*   class "option"   --no-fx / --security / --account / --no-sort /       *)
+(*                    --usd-exchange-rate relate to the plain output as    *)
+(*                    documented (real binary on a real .xlsx)             *)
 (***************************************************************************)
 EXTENDS Questrade, Json, IOUtils
 Recs == ndJsonDeserialize(IOEnv.TRACE)
@@ -54,10 +57,35 @@ Judge(rec) ==
   Chk(unordered = {}, "order", "rows are not printed in settlement-date / FX-purchases-before-FX-sales / row order",
   Chk(rec.refused = "", "accept", "acb does not accept the printed rows: " \o rec.refused,
   OkV))))))))
+(* ---- option combinations of the real binary on a real .xlsx ---- *)
+SameOut(a, b) ==
+  /\ a.sec = b.sec /\ a.act = b.act /\ REq(D(a.q), D(b.q)) /\ REq(D(a.p), D(b.p)) /\ REq(D(a.c), D(b.c)) /\ a.cur = b.cur
+  /\ a.hasRate = b.hasRate /\ REq(D(a.rate), D(b.rate)) /\ a.af = b.af /\ a.td = b.td /\ a.sd = b.sd
+SameSeq(x, y) == Len(x) = Len(y) /\ \A n \in DOMAIN x : SameOut(x[n], y[n])
+Var(rec, opt) == rec.variants[CHOOSE n \in DOMAIN rec.variants : rec.variants[n].opt = opt]
+JudgeOpts(rec) ==
+  IF rec.status # "ok" THEN [v |-> "skip", cls |-> "", detail |-> ""] ELSE
+  LET base == Var(rec, "base").rows
+      usdRate == RDec(13125, 4)
+  IN
+  Chk(\A n \in DOMAIN rec.variants : ~rec.variants[n].panicked, "panic", "tx-export-convert panicked",
+  Chk(\A n \in DOMAIN rec.variants : rec.variants[n].exit = 0, "convert", "tx-export-convert failed on a well-formed export: "
+        \o rec.variants[CHOOSE n \in DOMAIN rec.variants : rec.variants[n].exit # 0 \/ n = 1].stderr,
+  Chk(SameSeq(Var(rec, "no-fx").rows, SelectSeq(base, LAMBDA o : o.sec # "USD.FX")), "option", "--no-fx is not the output without the USD.FX rows",
+  Chk(SameSeq(Var(rec, "security").rows, SelectSeq(base, LAMBDA o : o.sec = "FOO")), "option", "--security FOO is not the output restricted to FOO",
+  Chk(SameSeq(Var(rec, "account").rows, SelectSeq(base, LAMBDA o : o.margin)), "option", "--account Margin is not the output restricted to that account",
+  Chk(LET ns == Var(rec, "no-sort").rows IN
+        Len(ns) = Len(base) /\ \A n \in DOMAIN base : \E m \in DOMAIN ns : SameOut(base[n], ns[m]), "option", "--no-sort changes the set of rows",
+  Chk(LET ur == Var(rec, "usd-rate").rows IN
+        Len(ur) = Len(base) /\ \A n \in DOMAIN base :
+           IF base[n].cur = "USD" THEN SameOut([base[n] EXCEPT !.hasRate = TRUE, !.rate = ur[n].rate], ur[n]) /\ REq(D(ur[n].rate), usdRate)
+           ELSE SameOut(base[n], ur[n]), "option", "--usd-exchange-rate does not set exactly the USD rows' rate",
+  OkV)))))))
+
 Init == l = 1 /\ tally = [ok |-> 0, fail |-> 0, ambig |-> 0, skip |-> 0, steps |-> 0]
 Next ==
   /\ l <= Len(Recs)
-  /\ LET r == Judge(Recs[l]) IN
+  /\ LET r == IF Recs[l].kind = "opts" THEN JudgeOpts(Recs[l]) ELSE Judge(Recs[l]) IN
      /\ tally' = [tally EXCEPT ![r.v] = @ + 1, !.steps = @ + Len(Recs[l].rows)]
      /\ (r.v = "fail" => PrintT("@@FAIL " \o ToJson([id |-> Recs[l].id, sec |-> ToString(Recs[l].layout), line |-> l, cls |-> r.cls, detail |-> r.detail])))
   /\ l' = l + 1
